@@ -148,14 +148,17 @@ def plant(cert_cfg, pre):
     return f
 
 
-def build_spec(idx, rc, tag, ident_kind="dns", pre="none"):
+def build_spec(idx, rc, tag, ident_kind="dns", pre="none", wildcard=False):
     """rc: [prof, allow, exit, shape] as printed by TLC (1-based arrays)."""
     hooks = []
     for i in range(3):
         name = "h%d" % (i + 1)
         types = PROFILES[rc["prof"][i] - 1]
+        if wildcard:
+            # a wildcard name is validated with dns-01, for the base name (RFC 8555 7.1.3: the authorization names the base domain)
+            types = [t.replace("challenge-http-01", "challenge-dns-01") for t in types]
         kw = {}
-        if "challenge-http-01" in types and i == 0:
+        if ("challenge-http-01" in types or "challenge-dns-01" in types) and i == 0:
             kw["stdin_str"] = "{{ proof }}|{{ identifier }}"
         hooks.append(rec_hook(name, types, exit_seq=str(rc["exit"][i]), kv=ALL_KV, allow_failure=bool(rc["allow"][i]), **kw))
     acct_hook = rec_hook("a1", ["file-pre-create", "file-pre-edit", "file-post-create", "file-post-edit"], kv=FILE_KV)
@@ -165,11 +168,13 @@ def build_spec(idx, rc, tag, ident_kind="dns", pre="none"):
     cenv = {env_name(pt): "cert" for pt in PATTERNS if pt[2]}
     ienv = {env_name(pt): "ident" for pt in PATTERNS if pt[3]}
     ident = {"dns": "hk%d.example.org" % idx, "challenge": "http-01", "env": ienv}
+    if wildcard:
+        ident = {"dns": "*.hk%d.example.org" % idx, "challenge": "dns-01", "env": ienv}
     cert = simple_cert("hk%d" % idx, ids=[ident], env=cenv)
     shape = SHAPES[rc["shape"] - 1]
     sp = dict(tag=tag, certs=[cert], attempts=2, hooks=hooks, groups=GROUPS, cert_hooks=shape, account_hooks=["a1"],
               global_opts={"env": genv}, env=penv,
-              meta={"family": "TLC configuration" if pre == "none" else "TLC configuration, files present before the first write (%s)" % pre, "rc": rc, "shape": shape, "pre": pre,
+              meta={"family": "TLC configuration, wildcard name" if wildcard else "TLC configuration" if pre == "none" else "TLC configuration, files present before the first write (%s)" % pre, "rc": rc, "shape": shape, "pre": pre,
                     "hooks_conf": {"defs": [{"name": h["name"], "types": h["type"], "allow": bool(h.get("allow_failure", False))} for h in hooks],
                                    "groups": GROUPS, "lists": [{"owner": "cert", "names": shape}, {"owner": "account", "names": ["a1"]}]}})
     sp = flowcheck.prepare(sp)
@@ -229,7 +234,7 @@ def hooks_layer(x):
                        "private_key_path": os.path.join(certs_dir, cid + ".pk.pem")}
             elif role == "chal":
                 obs = {"identifier": kv.get("identifier"), "challenge": kv.get("challenge"), "is_clean_hook": kv.get("is_clean_hook")}
-                exp = {"identifier": (cur_authz or {}).get("ident", {}).get("value"), "challenge": "http-01",
+                exp = {"identifier": (cur_authz or {}).get("ident", {}).get("value"), "challenge": cur_type[len("challenge-"):].replace("-clean", ""),
                        "is_clean_hook": "true" if cur_type.endswith("-clean") else "false"}
             io_o, io_e = "none", "none"
             if e.get("stdin") is not None:
@@ -256,6 +261,10 @@ def run(ctx):
     m = 240 if ctx.tier == "thorough" else 20
     for j, rc in enumerate(rng.sample(confs, min(m, len(confs)))):
         specs.append(build_spec(len(sample) + j, rc, "C10/p%04d" % j, pre=("emptykey", "pair", "emptyboth", "dangling")[j % 4]))
+    # and for a wildcard name: the variable `identifier` is the name under validation (the authorization's), not the configured string
+    w = 120 if ctx.tier == "thorough" else 16
+    for j, rc in enumerate(rng.sample(confs, min(w, len(confs)))):
+        specs.append(build_spec(len(sample) + m + j, rc, "C10/w%04d" % j, wildcard=True))
     results = flows.run_many(specs, workers=12)
     lines, owner = [], []
     for i, x in enumerate(results):
